@@ -3,7 +3,7 @@
 cd /verif
 for id in "$@"; do
   t0=$(date +%s)
-  VERIF_REPO=/tmp/wt/clean timeout 9000 ./check $id thorough > out/thorough.$id.log 2>&1
+  VERIF_REPO=${CLEAN:-/tmp/wt/clean} timeout 9000 ./check $id thorough > out/thorough.$id.log 2>&1
   rc=$?
   t1=$(date +%s)
   echo "$id rc=$rc secs=$((t1-t0)) :: $(grep -E '^(OK|VIOLATION|INCONCLUSIVE|UNCONFIRMED)' out/thorough.$id.log | head -2 | cut -c1-200 | tr '\n' ' ')" >> out/thorough.summary
